@@ -45,7 +45,7 @@ func ownWriteEdges(c *Ctx, fn *ssa.Function) (isOwn, notOwn []Edge) {
 }
 
 func checkC09(c *Ctx, r *Report) {
-	r.Explain = "Decides structural necessary conditions of 'external writes imported once, own writes never': (R1) every on-demand and feed import is issued only on the edge where the own-write predicate (IsSGWrite family) is false for that document (or no sync metadata exists); (R2) the import's update callback re-evaluates the predicate on the freshly loaded document inside the CAS loop and cancels with 'already imported' on the own-write edge before mutating anything; (R3) the three sibling implementations of the own-write predicate agree on every valuation of their shared atoms (CAS equal, body CRC equal, user-xattr changed, stored CV present, CV extraction outcome, CV equal, delete marker); (R4) the caching feed forwards a document mutation to the change cache only on the own-write edge (with the ambiguous xattr-only answer resolved by the body CRC of the same CAS); (R5) only the listed write paths stamp _sync.cas by macro expansion (a metadata rewrite that does not check who wrote the body must not claim the body), and feed-triggered metadata rewrites use the CAS of the event that triggered them. every function that hands the sync xattr to the bucket stamps _sync.cas unless it is a listed metadata-only rewrite; (R6) an on-demand import that lost the CAS race re-reads its input (body and bucket document) from the freshly loaded document before using it again.; (R7) the delete marker handed to an import describes the document found in the bucket, never the request that triggered the import. Not decided: parent/generation of the imported revision, redelivery idempotence as a whole, _mou bookkeeping values."
+	r.Explain = "Decides structural necessary conditions of 'external writes imported once, own writes never': (R1) every on-demand and feed import is issued only on the edge where the own-write predicate (IsSGWrite family) is false for that document (or no sync metadata exists); (R2) the import's update callback re-evaluates the predicate on the freshly loaded document inside the CAS loop and cancels with 'already imported' on the own-write edge before mutating anything; (R3) the three sibling implementations of the own-write predicate agree on every valuation of their shared atoms (CAS equal, body CRC equal, user-xattr changed, stored CV present, CV extraction outcome, CV equal, delete marker); (R4) the caching feed forwards a document mutation to the change cache only on the own-write edge (with the ambiguous xattr-only answer resolved by the body CRC of the same CAS); (R5) only the listed write paths stamp _sync.cas by macro expansion (a metadata rewrite that does not check who wrote the body must not claim the body), and feed-triggered metadata rewrites use the CAS of the event that triggered them. every function that hands the sync xattr to the bucket stamps _sync.cas unless it is a listed metadata-only rewrite; (R6) an on-demand import that lost the CAS race re-reads its input (body and bucket document) from the freshly loaded document before using it again.; (R7) the delete marker handed to an import describes the document found in the bucket, never the request that triggered the import.; (R8) _mou.cas is stamped only by the commit of a write/import, the re-stamp of the writer's own commit, or a metadata-only rewrite that has established that the loaded document is the gateway's own write. Not decided: parent/generation of the imported revision, redelivery idempotence as a whole, _mou bookkeeping values."
 	c09R1(c, r)
 	c09R2(c, r)
 	c09R3(c, r)
@@ -53,7 +53,7 @@ func checkC09(c *Ctx, r *Report) {
 	c09R5(c, r)
 	c09R6(c, r)
 	c09R7(c, r)
-	// c09R8(c, r) — armed once the attachment-migration call site has been triaged
+	c09R8(c, r)
 }
 
 func c09R1(c *Ctx, r *Report) {
